@@ -105,8 +105,10 @@ void bundle_t::delete_largest(const tensor_size_t count)
         m_alphas.slice(0, size()) = m_bundleE.slice(0, size());
         std::nth_element(m_alphas.begin(), m_alphas.begin() + (size() - count), m_alphas.begin() + size());
 
-        m_size = remove_if([&, thres = m_alphas(count) - epsilon0<scalar_t>()](const tensor_size_t i)
-                           { return m_bundleE(i) > thres; });
+        // NB: the threshold must not be larger than the count-th largest error (stored at position size - count),
+        //     so that at least count points are removed and there is room for the aggregation and the new point!
+        m_size = remove_if([&, thres = m_alphas(std::min(count, size() - count))](const tensor_size_t i)
+                           { return m_bundleE(i) >= thres; });
 
         append_aggregate();
     }
